@@ -4,6 +4,7 @@ TL = "src/cpp/thread-link.cpp"
 UH = "src/cpp/undo-history.cpp"
 AU = "src/cpp/automations.cpp"
 PS = "include/rtosc/port-sugar.h"
+RC = "src/rtosc.c"
 MUTANTS = [
  dict(id="C06", name="publish_before_copy", edits=[(TL,
   """    const off_t  next_write = (ring->write + len)%ring->size;
@@ -142,4 +143,16 @@ MUTANTS = [
             data.broadcast(loc, "f", obj->name);\\""", """            data.broadcast(loc, "f", obj->name);\\
             rAPPLY(name, f) \\""")]),
  dict(id="C14", name="array_toggle_index_shifted", edits=[(PS, "            obj->name[idx] = rtosc_argument(msg, 0).T; \\\n        } rBOILS_END\n\n#define rArrayTCbMember", "            obj->name[idx ? idx-1 : 0] = rtosc_argument(msg, 0).T; \\\n        } rBOILS_END\n\n#define rArrayTCbMember")]),
+
+ # ---- C02 fixed-buffer discipline
+ dict(id="C02", name="capacity_test_off_by_four", edits=[(RC, "    if(total_len>len) {\n        memset(buffer, 0, len);\n        return 0;", "    if(total_len>len+4) {\n        memset(buffer, 0, len);\n        return 0;")]),
+ dict(id="C02", name="exact_fit_rejected", edits=[(RC, "    if(total_len>len) {\n        memset(buffer, 0, len);\n        return 0;", "    if(total_len>=len) {\n        memset(buffer, 0, len);\n        return 0;")]),
+ dict(id="C02", name="no_zero_fill_on_failure", edits=[(RC, "    if(total_len>len) {\n        memset(buffer, 0, len);\n        return 0;", "    if(total_len>len) {\n        return 0;")]),
+ dict(id="C02", name="failure_returns_needed_size", edits=[(RC, "    if(total_len>len) {\n        memset(buffer, 0, len);\n        return 0;", "    if(total_len>len) {\n        memset(buffer, 0, len);\n        return total_len;")]),
+ dict(id="C02", name="bundle_unbounded", edits=[(RC, "    if(total_len > len)\n        return 0;\n", "")]),
+ dict(id="C02", name="bundle_bound_ignores_size_fields", edits=[(RC, "        total_len += 4+rtosc_message_length(va_arg(va_size, const char*), -1);", "        total_len += rtosc_message_length(va_arg(va_size, const char*), -1);")]),
+ dict(id="C02", name="link_encodes_beyond_maxmsg", edits=[(TL, "        rtosc_amessage(write_buffer, MaxMsg, dest, args, aargs);", "        rtosc_amessage(write_buffer, MaxMsg+8, dest, args, aargs);")]),
+ dict(id="C02", name="reply_buffer_size_mismatch", edits=[("src/cpp/ports.cpp", "    char buffer[8192];\n    rtosc_vmessage(buffer,8192,path,args,va);\n    reply(buffer);", "    char buffer[8192];\n    rtosc_vmessage(buffer,8200,path,args,va);\n    reply(buffer);")]),
+ dict(id="C02", name="avmessage_counts_valueless_tags", edits=[("src/cpp/arg-val.c", "            vals[nvals++] = cur->val;", "            vals[nvals++] = cur->val;\n        else vals[nvals++] = cur->val;")]),
+ dict(id="C02", name="null_buffer_size_without_padding", edits=[(RC, "    if(!buffer)\n        return total_len;", "    if(!buffer)\n        return total_len - (total_len > 32 ? 4 : 0);")]),
 ]
